@@ -387,3 +387,41 @@ Proof.
   intros N G. unfold sys_tags. cbv zeta. destruct (streq_spec (interpreter_name (impl_name s)) s_cp) as [E|_]; [contradiction|].
   rewrite G. reflexivity.
 Qed.
+
+Lemma starts_with_app' p s : starts_with p (p ++ s) = true.
+Proof. induction p as [|c p IH]; [destruct s; reflexivity|]. cbn [app starts_with]. now rewrite N.eqb_refl, IH. Qed.
+(* ---------------------------------------------------------------- _generic_abi on the CPython (non-Windows) EXT_SUFFIX form *)
+Definition free_of (c : N) (w : str) : Prop := forallb (fun x => negb (x =? c)) w = true.
+Lemma tsplit_nonnil c s : tsplit c s <> [].
+Proof. destruct s as [|x s]; cbn [tsplit]; [discriminate|]. destruct (x =? c); [discriminate|]. destruct (tsplit c s); discriminate. Qed.
+Lemma tsplit_word c w r : free_of c w -> tsplit c (w ++ c :: r) = w :: tsplit c r.
+Proof.
+  unfold free_of. induction w as [|x w IH]; cbn [app forallb]; intros H.
+  - cbn [tsplit]. now rewrite N.eqb_refl.
+  - apply andb_prop in H as [H1 H2]. apply negb_true_iff in H1. cbn [tsplit]. rewrite H1, IH by assumption. reflexivity.
+Qed.
+Lemma free_of_app c a b : free_of c a -> free_of c b -> free_of c (a ++ b).
+Proof. unfold free_of. intros. rewrite forallb_app. now apply andb_true_intro. Qed.
+Lemma normalize_id w : free_of 46 w -> free_of 45 w -> free_of 32 w -> normalize_string w = w.
+Proof.
+  unfold free_of, normalize_string. induction w as [|x w IH]; cbn [forallb map]; intros H1 H2 H3; [reflexivity|].
+  apply andb_prop in H1 as [A1 B1]. apply andb_prop in H2 as [A2 B2]. apply andb_prop in H3 as [A3 B3].
+  apply negb_true_iff in A1, A2, A3. unfold norm_char at 1. rewrite A1, A2, A3. cbn [orb]. now rewrite IH.
+Qed.
+(* EXT_SUFFIX = ".cpython-<X>-<platform>.<ext>"  =>  the ABI is "cp<X>" *)
+Lemma generic_abi_cpython X plat ext c v :
+  free_of 46 X -> free_of 45 X -> free_of 32 X -> free_of 46 plat ->
+  generic_abi (Some ([46] ++ s_cpython ++ [45] ++ X ++ [45] ++ plat ++ [46] ++ ext)) c v = GOk [s_cp ++ X].
+Proof.
+  intros D1 D2 D3 P. set (soabi := s_cpython ++ [45] ++ X ++ [45] ++ plat).
+  assert (F : free_of 46 soabi).
+  { subst soabi. apply free_of_app; [reflexivity|]. apply free_of_app; [reflexivity|]. apply free_of_app; [assumption|]. apply free_of_app; [reflexivity|assumption]. }
+  replace ([46] ++ s_cpython ++ [45] ++ X ++ [45] ++ plat ++ [46] ++ ext) with (46 :: soabi ++ 46 :: ext)
+    by (subst soabi; repeat (first [rewrite <- app_assoc | progress cbn [app]]); reflexivity).
+  unfold generic_abi. rewrite N.eqb_refl. cbn [negb]. cbn [tsplit]. rewrite N.eqb_refl. rewrite (tsplit_word 46 soabi ext F).
+  pose proof (tsplit_nonnil 46 ext) as NE. destruct (tsplit 46 ext) as [|p ps] eqn:E; [congruence|].
+  cbn [length Nat.ltb Nat.leb nth]. subst soabi. rewrite starts_with_app'.
+  change (s_cpython ++ [45] ++ X ++ [45] ++ plat) with (s_cpython ++ 45 :: X ++ 45 :: plat).
+  rewrite (tsplit_word 45 s_cpython (X ++ 45 :: plat)) by reflexivity. rewrite (tsplit_word 45 X plat D2).
+  rewrite normalize_id; [reflexivity| | |]; apply free_of_app; auto; reflexivity.
+Qed.
